@@ -86,7 +86,7 @@ def gen(rng, tier):
         s = rng.randint(1, 8)
         e = rng.randint(s, 8)
         attrs = [["ID", ["i%d" % i]], ["Parent", ["g"]]]
-        feats.append(mf(["chr2" if two_seq and rng.random() < 0.4 else "chr1", rng.choice(["src", "alt"]),
+        feats.append(mf([rng.choice(["chr2", "Chr1"]) if two_seq and rng.random() < 0.5 else "chr1", rng.choice(["src", "alt"]),
                          "CDS" if two_typ and rng.random() < 0.4 else "exon", s, e, ".",
                          "-" if two_str and rng.random() < 0.4 else "+", "."], attrs))
     ops = []
